@@ -152,6 +152,13 @@ impl Prop for C09 {
     fn cases(&self, tier: Tier) -> u64 {
         tier.pick(60000, 600000)
     }
+    fn fuzz_plan(&self, tier: Tier) -> Vec<(&'static str, u64)> {
+        if tier == Tier::Thorough {
+            vec![("prop", 60000_u64)]
+        } else {
+            vec![]
+        }
+    }
     fn choice_len(&self) -> usize {
         12_000
     }
@@ -342,7 +349,13 @@ fn exec_seq(replies: &[SeqReply], ex: &mut Exec) {
             cmds.push(Cmd::LongData { id: r.id, param: 0, data: Blob::text("pending") });
         }
         if r.exec_after {
-            let params: Vec<Param> = r.params.iter().map(|_| Param { coltype: T_LONG, unsigned: false, value: PVal::Int(5) }).collect();
+            // (a parameter that was streamed is not sent inline, as clients do)
+            let params: Vec<Param> = r
+                .params
+                .iter()
+                .enumerate()
+                .map(|(i, _)| if i == 0 && r.long_data_after { Param { coltype: T_BLOB, unsigned: false, value: PVal::LongData } } else { Param { coltype: T_LONG, unsigned: false, value: PVal::Int(5) } })
+                .collect();
             cmds.push(Cmd::Execute { id: r.id, params, send_types: true, flags: 0, iterations: 1 });
             actions.push(Action::Result(Program::completed(0, 0)));
         }
